@@ -165,7 +165,7 @@ var selectors = []string{"CDS", "gene", "CDS/gene=A", "/product", "source", "mis
 var pickLists = []string{"1", "2-3", "1,3", "-2", "2-", "1-", "2", "5"}
 var locations = []string{"1..10", "complement(5..20)", "join(1..3,7..9)", "15", "<1..>30", "bogus("}
 var keys = []string{"misc_feature", "gene", "CDS", "promoter"}
-var quals = []string{"note=hello", "gene=x", "note=a b c", "pseudo", "product=some protein"}
+var quals = []string{"note=hello", "gene=x", "note=a b c", "pseudo", "product=some protein", "note=caf\\xe9", "note=caf\\xe8", "gene=\\xff", "gene=\\xc3\\x28"}
 var queries = []string{"@ATGC", "@GATTACA", "@TTTT", "@GAGTTTTATCGCTTCC", "@ACGN", "/u/guest.fasta", "@RRYY", "/u/query.fasta"}
 var formats = []string{"fasta", "genbank", "gb", "fasta", "genbank", "bogus"}
 
@@ -179,8 +179,8 @@ var posPools = map[string][][]string{
 	"annotate": {tablePool}, "define": {keys, locations}, "delete": {locators}, "infix": {locators, hostPool},
 	"insert": {locators, guestPool}, "pick": {pickLists}, "rotate": {locators}, "search": {queries}, "split": {locators},
 }
-var sepPool = []string{";", "|", "/", "ab", ",", ",;", "a", ";|"}
-var delimPool = []string{",", ";", "|", "  ", ",;"}
+var sepPool = []string{";", "|", "/", "ab", ",", ",;", "a", ";|", "\\xfe", "\\xff"}
+var delimPool = []string{",", ";", "|", "  ", ",;", "\\xfe", "\\xff", "\\xfe\\xff"}
 var optPools = map[string]map[string][]string{
 	"query":  {"-d": delimPool, "-t": sepPool, "-n": {"gene", "product", "note", "locus_tag", "translation", "db_xref"}},
 	"search": {"-k": keys, "-q": quals},
